@@ -15,7 +15,8 @@ LEVEL = ("Classical static necessary conditions for deadlock freedom and complet
          "after the command loop, and the worker leaves its loop on Disconnected and when its trace slot is empty (R4); no try_lock anywhere and finalisation takes every trace slot under a blocking lock (R6); per recorded draw the worker does "
          "exactly one progress update and one record_sample under the trace guard, counts the draw only after a successful record and stops at "
          "num_tune + num_draws (R5). Absence of deadlock over all interleavings is not decided (that needs a protocol model, a different technique)."
-         " Added: the response of a request is awaited with the blocking recv (R3).")
+         " Added: the response of a request is awaited with the blocking recv (R3)."
+         " Added (round 4): the per-draw progress update is applied to the shared counters behind their mutex (R5); inside its command loop the controller waits only in recv_timeout, response sends and locks (R9).")
 EXPLANATION = ("Guard-liveness dataflow on MIR (lock call -> guard local -> drop terminator), lock-class edges closed over the call graph, blocking-call "
                "table, dominance / per-path call counting on the request methods, the controller loop and the worker loop; positive-control crate for "
                "the zero-expected lock rules.")
